@@ -85,7 +85,8 @@ const OP_UNASSIGNED: u16 = 15 << 11;
 const QR: u16 = 0x8000;
 
 /// Counts 0 / 1 / 2 / 65535 per section and every opcode class (UPDATE admits empty RDATA).
-pub const HEADER_SHAPES: [HeaderShape; 14] = [
+pub const HEADER_SHAPES: [HeaderShape; 15] = [
+    HeaderShape { name: "counts-0", flags: 0x0100, qd: 0, an: 0, ns: 0, ar: 0 },
     HeaderShape { name: "query-qd1", flags: 0x0100, qd: 1, an: 0, ns: 0, ar: 0 },
     HeaderShape { name: "resp-qd1-an1", flags: QR | 0x0180, qd: 1, an: 1, ns: 0, ar: 0 },
     HeaderShape { name: "resp-an1", flags: QR, qd: 0, an: 1, ns: 0, ar: 0 },
